@@ -51,9 +51,15 @@ def main():
     ap.add_argument('-j', type=int, default=8)
     ap.add_argument('--prop')
     ap.add_argument('--only-errors', action='store_true')
+    ap.add_argument('--id', action='append', help='only these corpus entry ids (Cnn/name)')
+    ap.add_argument('--check', action='append', help='only run these checks')
     args = ap.parse_args()
     props = claimed()
     entries = R.load_corpus()
+    if args.check:
+        props = [p for p in props if p in args.check]
+    if args.id:
+        entries = [e for e in entries if e['id'] in args.id]
     if args.prop:
         entries = [e for e in entries if e['prop'] == args.prop.upper()]
     with ThreadPoolExecutor(max_workers=args.j) as ex:
